@@ -255,3 +255,76 @@ func Inflate(ts Tables, n int) Tables {
 	}
 	return out
 }
+
+// LongGroup gives ONE group of each grouped file n more rows - the stop times of one trip, the points of one shape, the
+// exception dates of one service - and lets a fresh group (a trip / shape / service that has no rows before) follow it, so
+// that whatever a parser keeps per group is closed at a size beyond any block or chunk it may allocate in.
+func LongGroup(ts Tables, n int) Tables {
+	out := ts.Clone()
+	if st, trips := out.Get("stop_times.txt"), out.Get("trips.txt"); st != nil && trips != nil && len(st.Rows) > 0 && len(trips.Rows) > 0 {
+		ti, qi, tci := st.Col("trip_id"), st.Col("stop_sequence"), trips.Col("trip_id")
+		if ti >= 0 && qi >= 0 && tci >= 0 {
+			tmpl := st.Rows[len(st.Rows)-1]
+			for i := 0; i < n; i++ {
+				row := append([]string(nil), tmpl...)
+				row[qi] = fmt.Sprint(100000 + i)
+				st.Rows = append(st.Rows, row)
+			}
+			// a trip of its own after the long one
+			for _, tr := range trips.Rows {
+				if tr[tci] == tmpl[ti] {
+					tail := append([]string(nil), tr...)
+					tail[tci] = tr[tci] + "~tail"
+					trips.Rows = append(trips.Rows, tail)
+					for k := 0; k < 2; k++ {
+						row := append([]string(nil), tmpl...)
+						row[ti] = tail[tci]
+						row[qi] = fmt.Sprint(k + 1)
+						st.Rows = append(st.Rows, row)
+					}
+					break
+				}
+			}
+		}
+	}
+	if sh := out.Get("shapes.txt"); sh != nil && len(sh.Rows) > 0 {
+		ii, qi := sh.Col("shape_id"), sh.Col("shape_pt_sequence")
+		if ii >= 0 && qi >= 0 {
+			tmpl := sh.Rows[len(sh.Rows)-1]
+			for i := 0; i < n; i++ {
+				row := append([]string(nil), tmpl...)
+				row[qi] = fmt.Sprint(100000 + i)
+				sh.Rows = append(sh.Rows, row)
+			}
+			for k := 0; k < 2; k++ {
+				row := append([]string(nil), tmpl...)
+				row[ii] = tmpl[ii] + "~tail"
+				row[qi] = fmt.Sprint(k + 1)
+				sh.Rows = append(sh.Rows, row)
+			}
+		}
+	}
+	if cd := out.Get("calendar_dates.txt"); cd != nil && len(cd.Rows) > 0 {
+		si, di := cd.Col("service_id"), cd.Col("date")
+		if si >= 0 && di >= 0 {
+			tmpl := cd.Rows[len(cd.Rows)-1]
+			y, m, d := 2030, 1, 1
+			for i := 0; i < n; i++ {
+				row := append([]string(nil), tmpl...)
+				row[di] = fmt.Sprintf("%04d%02d%02d", y, m, d)
+				if d++; d > 28 {
+					d = 1
+					if m++; m > 12 {
+						m = 1
+						y++
+					}
+				}
+				cd.Rows = append(cd.Rows, row)
+			}
+			row := append([]string(nil), tmpl...)
+			row[si] = tmpl[si] + "~tail"
+			cd.Rows = append(cd.Rows, row)
+		}
+	}
+	return out
+}
